@@ -69,6 +69,8 @@ Proof. intros l l' p i H. rewrite !resolve_cons, H. reflexivity. Qed.
 Lemma redir_get_nokey : forall r n, (forall v, ~ In (n, v) r) -> redir_get r n = n.
 Proof. intros r n H. destruct (redir_get_cases r n) as [E|E]; [exact E|]. exfalso. eapply H; eauto. Qed.
 
+Definition def_or_empty (n : node) : Prop := n = NEmpty \/ exists f a ch, n = NDefine f a ch.
+
 Record Inv (p : chain) (l : layer) : Prop := mkInv {
   I_rok : redir_ok p l;
   I_h0 : forall s n, get_head (l :: p) s = Some n -> n < size (l :: p);
@@ -79,7 +81,8 @@ Record Inv (p : chain) (l : layer) : Prop := mkInv {
   I_fresh : forall k a n, get_head (l :: p) (FBody k, a) = Some n -> k < size (l :: p);
   I_err : l_err l = false;
   I_hres : forall s n, get_head (l :: p) s = Some n -> resolve (l :: p) n = n;
-  I_call : forall i, i < size (l :: p) -> call_ok (l :: p) (get_node (l :: p) i)
+  I_call : forall i, i < size (l :: p) -> call_ok (l :: p) (get_node (l :: p) i);
+  I_keys : forall k v, In (k, v) (l_redir l) -> def_or_empty (raw p k)
 }.
 
 Definition defs (c : chain) (s : sig) : list nat :=
@@ -139,7 +142,7 @@ Lemma Inv_app : forall p l n, Inv p l -> ok_node (fst (app_node p l n) :: p) n -
   (forall f a ch, n <> NDefine f a ch) -> call_ok (l :: p) n ->
   Inv p (fst (app_node p l n)).
 Proof.
-  intros p l n I Hok Hnd Hcall. destruct I as [rok h0 h1 h3 w3 cl fresh err hres hcall].
+  intros p l n I Hok Hnd Hcall. destruct I as [rok h0 h1 h3 w3 cl fresh err hres hcall keys].
   assert (Hfrm : frm (l :: p) (fst (app_node p l n) :: p)) by (intros j; apply fr_app_old; exact rok).
   constructor.
   - apply redir_ok_app. exact rok.
@@ -160,6 +163,7 @@ Proof.
     assert (Hx : forall x, call_ok (l :: p) x -> call_ok (fst (app_node p l n) :: p) x).
     { intros x. apply call_ok_ext; reflexivity. }
     destruct (Nat.eqb_spec i (size (l :: p))); apply Hx; [exact Hcall|]. apply hcall. lia.
+  - exact keys.
 Qed.
 
 Lemma extN_app : forall N p l n, redir_ok p l -> extN N (l :: p) (fst (app_node p l n) :: p).
@@ -201,7 +205,7 @@ Lemma add_head_spec : forall p l s create,
   Inv p l -> (forall k a, s = (FBody k, a) -> k <= size (l :: p)) ->
   let '(l', i) := add_head p l s create in ah_post p l s create l' i.
 Proof.
-  intros p l s create I Hfb. pose proof I as I0. destruct I as [rok h0 h1 h3 w3 cl fresh err hres hcall].
+  intros p l s create I Hfb. pose proof I as I0. destruct I as [rok h0 h1 h3 w3 cl fresh err hres hcall keys].
   unfold add_head. destruct (get_head (l :: p) s) as [n|] eqn:E.
   - (* the head exists *)
     destruct (create && (n <? size p)) eqn:C.
@@ -325,6 +329,10 @@ Proof.
            ++ assert (Hne : (FU f, length args) <> s) by (intros Hq; rewrite Hq, sig_eqb_refl in Es; discriminate).
               destruct (Hother _ h Hne Hc1) as [H1 H2]. exists h. split; [exact Hc1|].
               destruct (Nat.eqb_spec h n); [contradiction|reflexivity].
+        -- intros k v [Hkv|Hkv]; [|apply (keys k v Hkv)].
+           inversion Hkv; subst k v. rewrite <- (raw_lt l p n C).
+           rewrite <- Hnn at 1. rewrite <- (get_node_raw (l :: p) n rok).
+           destruct Hshape as [Hs|[ch' Hs]]; [left; exact Hs|right; do 3 eexists; exact Hs].
       * exact Hext.
       * exact Hfrm.
       * intros s'. unfold defs. rewrite Hh. destruct (sig_eqb s' s) eqn:Es.
@@ -412,6 +420,7 @@ Proof.
            destruct (sig_eqb (FU f, length args) s) eqn:Es.
            ++ apply sig_eqb_eq in Es. rewrite Es, E in Hc1. discriminate.
            ++ split; [exact Hc1|exact Hc2].
+      * exact keys.
     + exact Hext.
     + exact Hfrm.
     + intros s'. unfold defs. rewrite Hh. destruct (sig_eqb s' s) eqn:Es.
@@ -453,7 +462,7 @@ Proof.
   destruct (add_head p l s true) as [l1 di].
   destruct Hah as (I1 & Hext1 & Hfrm1 & Hdefs1 & Hhead1 & Hoth1 & Hback1 & Hdi & Hcr & Hnone & Hsz1).
   destruct (Hcr eq_refl) as [Hdip Hshape].
-  pose proof I1 as I1'. destruct I1 as [rok h0 h1 h3 w3 cl fresh err hres hcall].
+  pose proof I1 as I1'. destruct I1 as [rok h0 h1 h3 w3 cl fresh err hres hcall keys].
   assert (Hrd : resolve (l1 :: p) di = di) by (rewrite resolve_cons, pre_ge by exact Hdip; apply (redir_get_ge p l1 di rok Hdip)).
   set (NEW := NDefine (fst s) (snd s) (defs (l :: p) s ++ [c])).
   assert (Hres : match get_node (l1 :: p) di with
@@ -512,6 +521,7 @@ Proof.
     + intros j Hj. rewrite Hsz in Hj. rewrite Hg.
       destruct (Nat.eqb_spec (resolve (l1 :: p) j) di); [exact Logic.I|].
       eapply call_ok_ext; [exact Hh|exact Hr2|]. apply hcall. exact Hj.
+    + intros k v Hkv. unfold l2 in Hkv. rewrite redir_set in Hkv. apply (keys k v Hkv).
   - intros Hcase. eapply extN_trans; [apply Hext1|].
     split; [rewrite Hsz; lia|]. intros j Hj [Hl Hf]. rewrite Hg.
     destruct (Nat.eqb_spec (resolve (l1 :: p) j) di) as [Ej|Ej]; [|reflexivity].
